@@ -20,7 +20,7 @@ META = dict(
                "functional_extensionality_dep, classic); the harness' conversion of naive/aware datetimes to integer instants; "
                "CPython datetime arithmetic and pytz conversions (exercised, not modelled).",
     rule="case = (now, T, zone spelling of T); generated boundary-biased (T = now +- few us, whole seconds +- 1us, horizon +- 3us, "
-         "minute roll-over) plus uniform +-2 days; non-trivial iff |T-now| <= 62 s or T within 3 us of now / of the horizon; "
+         "minute roll-over) plus uniform +-2 days, plus 15% around UTC-offset transitions of IANA zones (repeated/skipped hour); non-trivial iff |T-now| <= 62 s or T within 3 us of now / of the horizon; "
          "distinct by (now, T, spelling)",
     trusted_base=["model: coq/theories/SchedDelay.v (hand-written transcription of get_task_delay's time branch)",
                   "datetime<->integer instant conversion in harness/drivers/sched_delay.py"],
@@ -53,7 +53,42 @@ def gen_spell(r):
     return {"kind": "zoneinfo", "zone": r.choice(ZONES)}
 
 
+_TRANS = {}
+
+
+def transitions(zone):
+    """UTC transition instants (us) of `zone` between 2015 and 2035, from pytz's own tables"""
+    if zone not in _TRANS:
+        import datetime as dt
+
+        import pytz
+        tz = pytz.timezone(zone)
+        ep = dt.datetime(1970, 1, 1)
+        _TRANS[zone] = [int((t - ep).total_seconds()) * US for t in getattr(tz, "_utc_transition_times", [])
+                        if 2015 <= t.year < 2035]
+    return _TRANS[zone]
+
+
+def gen_dst_case(r):
+    """now and T around a UTC-offset transition of an IANA zone (repeated / skipped local hour)"""
+    zone = r.choice(ZONES)
+    tr = r.choice(transitions(zone) or [1_700_000_000 * US])
+    k = r.random()
+    if k < .4:      # straddle the transition within the look-ahead window
+        now = tr - r.randrange(0, 61 * US)
+        T = tr + r.randrange(0, 61 * US)
+    elif k < .7:    # both within two hours around it, any order
+        now = tr + r.randrange(-7200 * US, 7200 * US)
+        T = now + r.choice([1, -1]) * r.randrange(0, 7200 * US)
+    else:           # same local wall-clock reading, one hour (or the zone's shift) apart
+        now = tr + r.randrange(-3600 * US, 3600 * US)
+        T = now + r.choice([-1, 1]) * r.choice([1800, 3600, 2700]) * US + r.randrange(-70, 70) * US
+    return dict(type="time", now=now, T=T, spell={"kind": r.choice(["zoneinfo", "zoneinfo", "pytz"]), "zone": zone})
+
+
 def gen_case(r):
+    if r.random() < .15:
+        return gen_dst_case(r)
     base = r.choice([1_420_070_400, 1_700_000_000, 1_790_000_000, 2_040_000_000])
     now = (base + r.randrange(0, 86400 * 400)) * US + r.choice([0, 0, 1, 999_999, r.randrange(US)])
     k = r.random()
